@@ -1,4 +1,209 @@
+/-
+  C19 -- runs leave inputs untouched, scratch space empty, and do not interfere.
+
+  Model: `CTM/Model/Scratch.lean` (file system = finite map, runs = lists of the operations
+  `strace` shows; resource skeletons of the stage functions regenerated from the source into
+  `CTM/Generated/Resources.lean`).  Lemmas: `CTM/Lemmas/Scratch.lean`.
+
+  What ties this to /repo: `harness/props/c19.py` -- every traced stage run is checked
+  against `footprintOk` (the hypothesis of `frame`, `commute`, `only_outputs_change`,
+  `inputs_ro`) and replayed in the model; `translate_res.py` regenerates the skeletons.
+-/
+import CTM.Lemmas.Scratch
 import CTM.Generated.Resources
+
 namespace CTM.C19
-theorem placeholder_true : True := trivial
+open CTM.Scratch CTM.Skeleton
+
+/-- "Its result does not depend on files left in the scratch or output directories by
+earlier runs": for every run inside its footprint and every set of `stale` entries that
+are neither under a temporary the run creates (its fresh names) nor a declared output or
+input, running on top of the stale entries gives the same final state plus the untouched
+stale entries, and every operation of the run sees exactly what it sees without them. -/
+theorem frame (d : Decl) (run : List Op) (fs stale : FS)
+    (hfoot : footprintOk d run = true)
+    (hstale : ∀ q, stale q ≠ none →
+      under (freshOf run) q = false ∧ q ∉ d.outputs ∧ q ∉ d.inputs) :
+    exec (overlay stale fs) run = overlay stale (exec fs run) ∧
+    reads (overlay stale fs) run = reads fs run := by
+  apply exec_overlay
+  intro q hq o ho
+  cases ht : o.touches q with
+  | false => rfl
+  | true =>
+    obtain ⟨h1, h2, h3⟩ := hstale q hq
+    rcases touches_of_footprint d run hfoot o ho q ht with h | h | h
+    · rw [h1] at h; cases h
+    · exact absurd h h2
+    · exact absurd h h3
+
+example :
+    let tmp : Path := ["scratch"]
+    let d : Decl := { scratch := [tmp], outputs := [["out", "r.json"]], inputs := [["in", "q.h5ad"]] }
+    let run : List Op := [.mkdtemp ["scratch", "buf_a1"], .openRO ["in", "q.h5ad"],
+      .write ["scratch", "buf_a1", "chunk"] 1, .openRO ["scratch", "buf_a1", "chunk"],
+      .write ["out", "r.json"] 2, .listdir ["scratch", "buf_a1"],
+      .unlink ["scratch", "buf_a1", "chunk"], .rmdir ["scratch", "buf_a1"]]
+    footprintOk d run = true ∧ under (freshOf run) ["scratch", "buf_stale"] = false := by
+  decide
+
+/-- "... nor on other runs using the same directories at the same time": two runs inside
+their footprints whose temporaries and outputs are apart from everything the other run may
+touch.  Every interleaving `l` of the two ends in the same state as running one after the
+other, and each run sees, operation by operation, what it sees running alone. -/
+theorem commute (d1 d2 : Decl) (l : List (Bool × Op)) (fs : FS)
+    (h1 : footprintOk d1 (proj true l) = true) (h2 : footprintOk d2 (proj false l) = true)
+    (sep12 : ∀ q, under (freshOf (proj true l)) q = true ∨ q ∈ d1.outputs →
+      under (freshOf (proj false l)) q = false ∧ q ∉ d2.outputs ∧ q ∉ d2.inputs)
+    (sep21 : ∀ q, under (freshOf (proj false l)) q = true ∨ q ∈ d2.outputs →
+      under (freshOf (proj true l)) q = false ∧ q ∉ d1.outputs ∧ q ∉ d1.inputs) :
+    exec fs (untag l) = exec (exec fs (proj true l)) (proj false l) ∧
+    readsOf true fs l = reads fs (proj true l) ∧
+    readsOf false fs l = reads fs (proj false l) := by
+  have hind : IndepRuns (proj true l) (proj false l) := by
+    intro a ha b hb q
+    constructor
+    · intro hw
+      cases ht : b.touches q with
+      | false => rfl
+      | true =>
+        have hwq := writes_of_footGo d1 _ [] h1 a ha q hw
+        have hs := sep12 q (by simpa using hwq)
+        rcases touches_of_footprint d2 _ h2 b hb q ht with h | h | h
+        · rw [hs.1] at h; cases h
+        · exact absurd h hs.2.1
+        · exact absurd h hs.2.2
+    · intro hw
+      cases ht : a.touches q with
+      | false => rfl
+      | true =>
+        have hwq := writes_of_footGo d2 _ [] h2 b hb q hw
+        have hs := sep21 q (by simpa using hwq)
+        rcases touches_of_footprint d1 _ h1 a ha q ht with h | h | h
+        · rw [hs.1] at h; cases h
+        · exact absurd h hs.2.1
+        · exact absurd h hs.2.2
+  exact ⟨commute_state l fs hind, commute_reads_first l fs hind, commute_reads_second l fs hind⟩
+
+example :
+    let d1 : Decl := { scratch := [["s"]], outputs := [["o", "a.json"]], inputs := [["i", "q"]] }
+    let d2 : Decl := { scratch := [["s"]], outputs := [["o", "b.json"]], inputs := [["i", "q"]] }
+    let l : List (Bool × Op) := [(true, .mkdtemp ["s", "t_1"]), (false, .mkdtemp ["s", "t_2"]),
+      (false, .openRO ["i", "q"]), (true, .write ["s", "t_1", "x"] 1), (true, .openRO ["i", "q"]),
+      (false, .write ["o", "b.json"] 2), (true, .write ["o", "a.json"] 3),
+      (true, .unlink ["s", "t_1", "x"]), (false, .rmdir ["s", "t_2"]), (true, .rmdir ["s", "t_1"])]
+    footprintOk d1 (proj true l) = true ∧ footprintOk d2 (proj false l) = true ∧
+      freshOf (proj true l) = [["s", "t_1"]] ∧ freshOf (proj false l) = [["s", "t_2"]] := by
+  decide
+
+/-- "creates files only at the requested output locations": a run inside its footprint
+changes no entry outside its own temporaries and its declared outputs. -/
+theorem only_outputs_change (d : Decl) (run : List Op) (fs : FS) (q : Path)
+    (hfoot : footprintOk d run = true)
+    (hq : under (freshOf run) q = false) (hout : q ∉ d.outputs) :
+    exec fs run q = fs q := by
+  apply exec_untouched
+  intro o ho
+  cases hw : o.writes q with
+  | false => rfl
+  | true =>
+    rcases writes_of_footGo d run [] hfoot o ho q hw with h | h
+    · rw [List.append_nil, hq] at h; cases h
+    · exact absurd h hout
+
+/-- "A pipeline stage reads its input files without modifying them (the query file is
+written to only when storing results in it is requested)": an input that is not also a
+declared output keeps its entry (kind and content). -/
+theorem inputs_ro (d : Decl) (run : List Op) (fs : FS) (q : Path)
+    (hfoot : footprintOk d run = true) (_hin : q ∈ d.inputs) (hout : q ∉ d.outputs)
+    (hq : under (freshOf run) q = false) :
+    exec fs run q = fs q :=
+  only_outputs_change d run fs q hfoot hq hout
+
+example :
+    let d : Decl := { scratch := [["s"]], outputs := [["o", "a.json"]], inputs := [["i", "q"]] }
+    let run : List Op := [.mkstemp ["s", "copy_1.h5ad"], .openRO ["i", "q"],
+      .write ["s", "copy_1.h5ad"] 1, .write ["o", "a.json"] 2, .unlink ["s", "copy_1.h5ad"]]
+    footprintOk d run = true ∧ (["i", "q"] : Path) ∈ d.inputs ∧ (["i", "q"] : Path) ∉ d.outputs ∧
+      under (freshOf run) ["i", "q"] = false := by
+  decide
+
+/-- a run that writes its input is *outside* the footprint unless the input is a declared
+output (sanity of the discipline: `footprintOk` is not vacuous) -/
+example :
+    footprintOk { scratch := [["s"]], outputs := [], inputs := [["i", "q"]] }
+      [.write ["i", "q"] 1] = false := by
+  decide
+
+/-- "leaves nothing behind in the scratch directory it was given once it has returned; a
+mapping run also leaves nothing behind when it ends with an error" -- generic over the
+resource-skeleton IR: whatever is live (a temporary created directly under a directory the
+caller handed in and not yet cleaned up) after *any* execution of a skeleton -- any branch,
+any number of loop rounds, a raise at any call or creation site -- is in the set the
+analysis `postL` computes for that kind of exit. -/
+theorem may_leak_sound (body : List Stmt) {e : Exit} {σ' : Live}
+    (hx : ExecL body [] e σ') : ∀ x ∈ σ', x ∈ (postL body []).get e :=
+  postL_sound hx [] (by simp)
+
+/-- ... hence if the analysis says "nothing" for the exits in `exits`, every such execution
+restores the scratch directory: nothing is live when the function is left that way. -/
+theorem scratch_restored (exits : List Exit) (body : List Stmt)
+    (h : restoresOn exits body = true) {e : Exit} {σ' : Live} (he : e ∈ exits)
+    (hx : ExecL body [] e σ') : σ' = [] :=
+  restoresOn_sound exits body h he hx
+
+/-- non-vacuity: an execution that raises inside the protected region, and the analysis of
+a skeleton with the clean-up outside the `finally` (which does leak) -/
+example : ExecL [.mk 2 0, .tryFinally [.call] [.clean 2]] [] .exc [] :=
+  .consNext (.mkOk 2 0 []) (.consExit (.tryFinally (e := .exc) (e' := .norm)
+    (.consExit (.callRaise _) (by decide)) (.consNext (.clean 2 _) (.nil _))) (by decide))
+example : restoresOn [.exc] [.mk 2 0, .call, .clean 2] = false := by decide
+
+/-! Per-function obligations on the skeletons regenerated from the current source
+(closed terms, decided by the kernel at build time). -/
+
+/-- `validate_h5ad`: scratch restored at every exit, raising or not -/
+theorem validateH5ad_restores_always :
+    restoresOn [.norm, .ret, .exc] CTM.Generated.validateH5ad = true := by decide
+
+/-- `precompute_summary_stats_from_h5ad_and_lookup`: scratch restored once it has returned -/
+theorem precompute_restores_on_return :
+    restoresOn [.norm, .ret] CTM.Generated.precompute = true := by decide
+
+/-- `find_markers_for_all_taxonomy_pairs`: scratch restored once it has returned -/
+theorem findMarkers_restores_on_return :
+    restoresOn [.norm, .ret] CTM.Generated.findMarkers = true := by decide
+
+/-- `run_type_assignment_on_h5ad_cpu`: its `results_buffer_` directory is removed once it
+has returned (on an error it is left to the caller, `run_mapping`, which removes the
+enclosing `result_buffer_` directory in its `finally`) -/
+theorem typeAssignment_restores_on_return :
+    restoresOn [.norm, .ret] CTM.Generated.typeAssignment = true := by decide
+
+/-- `run_mapping`: scratch restored once it has returned -/
+theorem runMapping_restores_on_return :
+    restoresOn [.norm, .ret] CTM.Generated.runMapping = true := by decide
+
+/-- `run_mapping`, error exits: the `result_buffer_` directory (slot 3) is never left
+behind (the repaired defect D2); the only temporary that may survive an error is slot 2,
+the `cell_type_mapper_<timestamp>_` directory.
+
+FULL STRENGTH (what the property asks): `restoresOn [.norm, .ret, .exc]
+CTM.Generated.runMapping = true`.  On the pinned source this is FALSE -- slot 2 is created
+before the `try` and the output-path validity loop between the two can raise (finding
+`C19/scratch/cell_type_mapper-left-after-error-early`, reproduced on the real code by the
+suite).  The check evaluates the full obligation on the regenerated skeleton at run time
+(`scratch.skeleton`) and reports it; this theorem is the part that holds. -/
+theorem runMapping_error_exit_partial :
+    ((postL CTM.Generated.runMapping []).exc).all (fun v => v == 2) = true := by decide
+
+/-- with `scratch_restored` / `may_leak_sound`: every execution of the `run_mapping`
+skeleton that ends in an error leaves at most slot 2 -/
+theorem runMapping_error_leaves_at_most_tmp_dir {σ' : Live}
+    (hx : ExecL CTM.Generated.runMapping [] .exc σ') : ∀ x ∈ σ', x = 2 := by
+  intro x hxm
+  have h1 := may_leak_sound _ hx x hxm
+  have h2 := List.all_eq_true.mp runMapping_error_exit_partial x h1
+  simpa using h2
+
 end CTM.C19
